@@ -431,11 +431,9 @@ func declDiff(a, b string) string {
 	imps := func(f *ast.File) string {
 		var l []string
 		for _, im := range f.Imports {
-			n := ""
-			if im.Name != nil {
-				n = im.Name.Name + " "
-			}
-			l = append(l, n+im.Path.Value)
+			// the property speaks of the set of imported paths; goimports may add an explicit
+			// name where the package name differs from the last path element
+			l = append(l, im.Path.Value)
 		}
 		sort.Strings(l)
 		return strings.Join(l, ";")
